@@ -109,6 +109,43 @@ def apply_fault(b, f, aux=None):
             return R.replace_tlv(b, chain, new)
         except Exception:
             return None
+    if k == "payload":
+        chain = [tuple(c) for c in f[1]]
+        off, hl, length = chain[-1]
+        how = f[2]
+        try:
+            tag = b[off]
+            content = b[off + hl:off + hl + length]
+            pre = content[:1] if tag == 0x03 else b""
+            body = content[len(pre):]
+            if how == "trunc1":
+                nb = body[:-1]
+            elif how == "trunc2":
+                nb = body[:-2]
+            elif how == "trunchalf":
+                nb = body[:1 + (len(body) - 1) // 2]
+            elif how == "ext00":
+                nb = body + b"\x00"
+            elif how == "extff":
+                nb = body + b"\xff"
+            elif how == "pre00":
+                nb = b"\x00" + body
+            elif how.startswith("fmt"):
+                v = int(how[3:], 16)
+                if body[0] == v:
+                    return None
+                nb = bytes([v]) + body[1:]
+            elif how.startswith("flip"):
+                _, i, bit = how.split(":")
+                i = int(i) % len(body)
+                x = bytearray(body); x[i] ^= 1 << int(bit); nb = bytes(x)
+            else:
+                return None
+            n = len(pre) + len(nb)
+            enc = bytes([n]) if n < 0x80 else bytes([0x80 | ((n.bit_length() + 7) // 8)]) + n.to_bytes((n.bit_length() + 7) // 8, "big")
+            return R.replace_tlv(b, chain, bytes([tag]) + enc + pre + nb)
+        except Exception:
+            return None
     if k == "torn":
         o = aux["other"]
         return b[:f[1]] + o[f[1]:]
@@ -586,7 +623,7 @@ class Machine(object):
     PROPERTY = "C13"
     LEVEL = "fault_enumeration"
     SELFTEST_RUNS = 24
-    SHRINK_FIELDS = ("faults",)
+    SHRINK_FIELDS = ("faults", "steps")
     RUN_WALL_CAP = 900
     CHUNK = 6
     SHRINK_EVALS = 400
@@ -734,7 +771,55 @@ class Machine(object):
                     chunks = [c for c in chunks if (c + ii) % 3 == 0]
                 for c in chunks:
                     self.index.append((t.name, ii, c))
+                if isinstance(t, EccKeyT) and self.payload_faults(t, item, b):
+                    self.index.append((t.name, ii, -1))
         self.nseeded = 4000 if tier == "quick" else 200000
+        self.nreuse = 1500 if tier == "quick" else 60000
+
+    def payload_faults(self, t, item, b):
+        """ECC key files (clear DER): the members that carry a *nested* fixed-shape encoding - the SEC1 point, the raw
+        RFC 8410 public key or seed, the RFC 5915 private scalar - damaged inside a well-formed DER frame (the TLV is
+        rebuilt and every enclosing length fixed up): cut short, extended, given an undefined format octet, and - for
+        the public point stored next to the private scalar - any bit flipped."""
+        key = (t.name, item["i"])
+        if key in self.item_cache:
+            return self.item_cache[key]
+        r = t.rec(self, item)
+        out = []
+        if not (r["text"] or r.get("passphrase") or r.get("x509") or b[:1] != b"\x30"):
+            k = self.keys["ECC"][r["key"]]
+            roles = {}
+            Q = k.pointQ
+            n = Q.size_in_bytes()
+            if k.curve.startswith("NIST"):
+                x, y = int(Q.x).to_bytes(n, "big"), int(Q.y).to_bytes(n, "big")
+                roles[b"\x04" + x + y] = "pubpoint"
+                roles[bytes([2 + (int(Q.y) & 1)]) + x] = "pubpoint"
+                roles[int(k.d).to_bytes(n, "big")] = "scalar"
+            else:
+                roles[k.public_key().export_key(format="raw")] = "rawpub"
+                roles[k.seed] = "rawpriv"
+            for chain in R.chains(b):
+                off, hl, length = chain[-1]
+                tag = b[off]
+                if tag not in (0x03, 0x04):
+                    continue
+                content = b[off + hl:off + hl + length]
+                body = content[1:] if tag == 0x03 else content
+                role = roles.get(bytes(body))
+                if role is None or (role in ("scalar", "rawpriv") and r["public"]):
+                    continue
+                hows = ["trunc1", "trunc2", "trunchalf", "ext00", "extff", "pre00"]
+                if role == "pubpoint":
+                    hows += ["fmt00", "fmt01", "fmt05", "fmt08", "fmtff"]
+                    if not r["public"]:
+                        hows += ["flip:%d:%d" % (i, bit) for i in (0, 1, 2, n // 2, n, n + 1, 2 * n - 1, 2 * n) for bit in (0, 3, 7)]
+                elif role == "rawpub" and not r["public"]:
+                    hows += ["flip:%d:%d" % (i, bit) for i in (0, 1, n // 2, n - 1) for bit in (0, 7)]
+                for how in hows:
+                    out.append(["payload", [list(c) for c in chain], how, role])
+        self.item_cache[key] = out
+        return out
 
     def _in_scope(self, t, item, valid, fault):
         """X.509 certificates: the importers only extract the SubjectPublicKeyInfo; issuer, validity, signature etc. are
@@ -773,7 +858,7 @@ class Machine(object):
         return t.is_text
 
     def budget(self, tier):
-        return len(self.index) + self.nseeded
+        return len(self.index) + self.nseeded + self.nreuse
 
     def gen(self, rng, tier, idx):
         if idx < len(self.index):
@@ -781,9 +866,14 @@ class Machine(object):
             t = BY_NAME[tname]
             item = self.corpus[tname][ii]
             b = t.encode(self, item)
-            faults = single_faults(b, self._is_der_item(t, item), self._is_text_item(t, item))[c * CHUNK:(c + 1) * CHUNK]
+            if c == -1:
+                faults = self.payload_faults(t, item, b)
+            else:
+                faults = single_faults(b, self._is_der_item(t, item), self._is_text_item(t, item))[c * CHUNK:(c + 1) * CHUNK]
             return {"target": tname, "item": ii, "other": (ii + 1) % len(self.corpus[tname]), "faults": [[f] for f in faults],
                     "roundtrip": c == 0}
+        if idx >= len(self.index) + self.nseeded:
+            return self.gen_reuse(rng)
         # seeded sequences of 2-3 faults
         t = rng.choice(TARGETS)
         items = self.corpus[t.name]
@@ -797,6 +887,8 @@ class Machine(object):
 
     # ------------------------------------------------------------------ run
     def run(self, case, ctx):
+        if case.get("kind") == "reuse":
+            return self.run_reuse(case, ctx)
         t = BY_NAME[case["target"]]
         item = self.corpus[t.name][case["item"]]
         valid = t.encode(self, item)
@@ -870,6 +962,16 @@ class Machine(object):
                 if k == "extend":
                     ctx.violate("strict/%s/trailing-bytes-accepted" % t.name, "bytes trailing a valid DER structure (%s) were accepted" % seq[0][1],
                                 observed="accepted", expected="ValueError")
+                if k == "payload":
+                    how, role = seq[0][2], seq[0][3]
+                    cls = "flipped" if how.startswith("flip") else "undefined-format" if how.startswith("fmt") else \
+                        "truncated" if how.startswith("trunc") else "extended"
+                    ctx.violate("strict/%s/payload-%s-%s-accepted" % (t.name, role, cls),
+                                "a key file whose %s (inside a well-formed DER frame) was %s (%s) was accepted%s" % (
+                                    {"pubpoint": "SEC1 public point", "rawpub": "raw public key", "rawpriv": "private seed",
+                                     "scalar": "private scalar"}[role], cls, how,
+                                    "; the stored public key does not belong to the private key" if cls == "flipped" else ""),
+                                observed="accepted", expected="ValueError")
                 if k == "inner_extend":
                     path = ".".join("%02x" % valid[c[0]] for c in seq[0][1])
                     if t.deep_strict or len(seq[0][1]) <= 2:
@@ -895,6 +997,104 @@ class Machine(object):
                     ctx.violate("strict/%s/top-level-length" % t.name, "accepted input that is not a complete TLV (%s)" % label,
                                 observed=b[:8].hex(), expected="ValueError")
             ctx.probe("damaged_but_accepted")
+
+    # ------------------------------------------------------------------ decoder objects used more than once
+    REUSE_GROUPS = ["seq", "seq", "seq", "setof", "int", "octet", "bits", "oid", "bool"]
+    NR_KINDS = [None, None, "ok", "wrong", "list_ok", "list_wrong", "range_ok"]
+
+    def _reuse_items(self, group):
+        if group == "seq":
+            return "DerSequence", [i for i, it in enumerate(self.corpus["DerSequence"]) if not it["setof"]]
+        if group == "setof":
+            return "DerSequence", [i for i, it in enumerate(self.corpus["DerSequence"]) if it["setof"]]
+        if group == "int":
+            return "DerInteger", list(range(len(self.corpus["DerInteger"])))
+        return "DerMisc", [i for i, it in enumerate(self.corpus["DerMisc"]) if it["k"] == group]
+
+    def gen_reuse(self, rng):
+        group = rng.choice(self.REUSE_GROUPS)
+        tname, idxs = self._reuse_items(group)
+        t = BY_NAME[tname]
+        steps = []
+        for _ in range(rng.choice([2, 3, 3, 4, 6])):
+            ii = rng.choice(idxs)
+            fault = None
+            if rng.random() < 0.45:
+                fault = rng.choice(single_faults(t.encode(self, self.corpus[tname][ii]), True, False))
+            kw = {"strict": rng.random() < 0.5}
+            if group == "seq":
+                kw["nr"] = rng.choice(self.NR_KINDS)
+                kw["ints"] = rng.random() < 0.3
+            steps.append([ii, fault, kw])
+        return {"kind": "reuse", "group": group, "steps": steps, "ops": []}
+
+    def _reuse_new(self, group):
+        A = _asn1()
+        return {"seq": A.DerSequence, "setof": A.DerSetOf, "int": A.DerInteger, "octet": A.DerOctetString, "bits": A.DerBitString,
+                "oid": A.DerObjectId, "bool": A.DerBoolean}[group]()
+
+    def _reuse_decode(self, group, o, b, kw, n):
+        kwargs = {"strict": kw["strict"]}
+        if group == "seq":
+            nr = kw.get("nr")
+            if nr is not None:
+                kwargs["nr_elements"] = {"ok": n, "wrong": n + 1, "list_ok": [n + 2, n], "list_wrong": (n + 1, n + 3), "range_ok": range(n, n + 2)}[nr]
+            if kw.get("ints"):
+                kwargs["only_ints_expected"] = True
+        try:
+            o.decode(b, **kwargs)
+        except Exception as e:
+            return ("exc", type(e).__name__)
+        if group in ("seq", "setof"):
+            v = list(o)
+            return ("ok", repr(sorted(v, key=repr) if group == "setof" else v))
+        return ("ok", repr(getattr(o, "value", getattr(o, "payload", None))))
+
+    def run_reuse(self, case, ctx):
+        """decode() 're-initializes this object': what a decoder object returns for an input must not depend on what the
+        same object decoded (or refused) before, and a valid encoding is accepted exactly when the requested member count
+        and member kind hold."""
+        group = case["group"]
+        tname, _ = self._reuse_items(group)
+        t = BY_NAME[tname]
+        ctx.nontrivial = len(case["steps"]) >= 2
+        ctx.state(("reuse", group))
+        shared = self._reuse_new(group)
+        hist = []
+        for ii, fault, kw in case["steps"]:
+            ctx.step()
+            item = self.corpus[tname][ii]
+            valid = t.encode(self, item)
+            b = valid
+            if fault is not None:
+                nb = apply_fault(valid, fault, {"other": valid})
+                if nb is not None:
+                    b = nb
+                    ctx.fault("disk." + fault[0])
+            n = len(t.shapes[item["shape"]]) if group == "seq" else 0
+            fresh = self._reuse_decode(group, self._reuse_new(group), b, kw, n)
+            got = self._reuse_decode(group, shared, b, kw, n)
+            ctx.obs(fresh[0], got[0])
+            ctx.fault("history.reuse")
+            if b == valid:
+                ok = True
+                if group == "seq":
+                    ok = kw.get("nr") in (None, "ok", "list_ok", "range_ok") and not (kw.get("ints") and not (n > 0 and all(isinstance(x, int) and x >= 0 for x in t.shapes[item["shape"]])))
+                    # hasOnlyInts() as documented: False for an empty SEQUENCE, and negative INTEGERs do not count by default
+                if (fresh[0] == "ok") != ok or (fresh[0] == "exc" and fresh[1] != "ValueError"):
+                    ctx.violate("reuse/%s/valid-encoding-%s" % (group, "rejected" if ok else "accepted:%s" % kw.get("nr")),
+                                "a fresh %s object %s a valid encoding (%d members, nr_elements=%s, only_ints_expected=%s)" % (
+                                    group, "rejected" if ok else "accepted", n, kw.get("nr"), kw.get("ints")),
+                                observed=repr(fresh)[:120], expected="value" if ok else "ValueError")
+                ctx.probe("reuse_valid_step")
+            if got != fresh:
+                ctx.violate("reuse/%s/history-dependent:%s->%s" % (group, fresh[0], got[0]),
+                            "a %s decoder object that had decoded %d input(s) before returned %s for an input on which a new object "
+                            "returns %s (earlier steps: %s)" % (group, len(hist), repr(got)[:80], repr(fresh)[:80], hist[-3:]),
+                            observed=repr(got)[:120], expected=repr(fresh)[:120])
+            hist.append((kw.get("nr"), fresh[0]))
+            if len(hist) >= 2:
+                ctx.probe("reuse_after_earlier_decode")
 
     def _decode(self, t, item, b, pass_run):
         if not pass_run:
@@ -932,7 +1132,7 @@ class Machine(object):
             "assumptions": ["passphrase runs use containers written with minimal cost parameters and are cut off by a 2 s watchdog (counted as not judged)",
                             "DerSequence/DerSetOf return non-INTEGER members undecoded: length re-encodings deeper than two levels are not judged there",
                             "the time bound is enforced as a per-run wall cap only"],
-            "expected_probes": ["roundtrip_checked", "damaged_but_accepted"],
+            "expected_probes": ["roundtrip_checked", "damaged_but_accepted", "reuse_valid_step", "reuse_after_earlier_decode"],
             "exhaustive": True,
             "not_reached": [],
         }
